@@ -14,7 +14,10 @@ LITS = ['a', 'b', '/', '-', '.', '0', 'é', 'x/', '/a', 'ab', 'a/b', '/a/', 'end
         '_', '//', 'a.b/c', ':', '.0', '5', 'static/x', 'abcdefghij', '/v1/items/']
 NAMES = ['x', 'y', 'z', 'id', 'n_1', 'Xé', '_p', 'q', 'p']
 RE_POOL = [r'[a-z]+', r'\d+', r'[^/]+', r'a*', r'a|ab', r'(?:ab)+', r'.*', r'.+', r'[ab]*b', r'\w+', r'é+',
-           r'[0-9][0-9]', r'x?', r'[^-]*', r'-?1', r'/+', r'a\)b', r'[^/]*/b', r'[^0]+', r'[a-z]*', r'[0-9.]+']
+           r'[0-9][0-9]', r'x?', r'[^-]*', r'-?1', r'/+', r'a\)b', r'[^/]*/b', r'[^0]+', r'[a-z]*', r'[0-9.]+',
+           # one capturing group that takes part in the match without spanning it; two groups; a group spanning it;
+           # the mask texts of the built-in int / float filters as user regexes
+           r'(\d+)px', r'(ab|cd)+', r'v(\d+)', r'([a-z]+)-x', r'(a)(b)?', r'(a)|(b)', r'(\d+)', r'-?\d+', r'-?\d+(\.\d+)?']
 REX_POOL = G.REX_POOL
 
 POOL = {
@@ -24,7 +27,8 @@ POOL = {
               '0.00001', '100000000000000000000000', '٣.٥', '0', '-0.0', '3.1', '1.5.5', '0.000000000000000000001',
               '10000000000000000', '123456789.123456789'],
     'path': ['a/b', 'a', 'a/b/c', 'x/é/1', 'a//b', '-3.1', 'y-3.1', 'a0', 'a.5', '1.5', 'a/end', 'end/end', 'b.', '0'],
-    're': ['a', 'ab', 'abab', 'b', 'aab', '12', 'é', 'x', '', 'éé', '-1', 'a)b', '//', 'a/b', '01', 'aa', 'bb', 'abb',
+    're': ['12px', '7px', 'abcd', 'cd', 'v12', 'v007', 'ab-x', 'q-x', '007', '-7', '1.50', '-0.5',
+           'a', 'ab', 'abab', 'b', 'aab', '12', 'é', 'x', '', 'éé', '-1', 'a)b', '//', 'a/b', '01', 'aa', 'bb', 'abb',
            '7', '1', 'x/b', '1.5', '3.', 'z9', '-'],
     'rex': ['a', 'b', 'ab', '12', 'abx', 'x', 'q'],
 }
@@ -50,6 +54,11 @@ FIXED = [
     ('/a/<x:int>', 'a/٣'),
     ('/n<x:int>', 'n-007'),
     ('/<x.rex((a)|(b))[2]>z', 'bz'),
+    # user regexes with capturing groups: the value bound is the text the wildcard consumed, whatever the groups say
+    ('/<x:re:(\\d+)px>', '12px'), ('/<x:re:(ab|cd)+>', 'abcd'), ('/<x:re:v(\\d+)>', 'v12'), ('/<x:re:([a-z]+)-x>/t', 'ab-x/t'),
+    ('/<x.re((\\d+)px)>/<y:int>', '12px/007'), ('/<x:re:\\d+px>', '12px'), ('/<x:re:(?:ab|cd)+>', 'abcd'),
+    ('/<x:re:(a)(b)?>', 'ab'), ('/<x:re:(a)(b)?>', 'a'), ('/<x:re:(a)|(b)>', 'b'), ('/<x:re:(\\d+)>', '12'),
+    ('/n/<x:re:-?\\d+>', 'n/007'), ('/n/<x:re:-?\\d+(\\.\\d+)?>', 'n/1.50'), ('/<x:re:([a-z]+)-x><y>', 'ab-xq'),
     # the shapes the side conditions of url_rematch_builtin exclude (model witnesses of Props/C19.lean, section
     # WitnessBuiltin) and instances meeting them
     ('/<p:path>-5<n:int>', 'a-5-05'),
@@ -676,6 +685,7 @@ class Oracle:
         self.route = self.router.add(rule, 'GET', lambda **kw: None)
         self.kinds = [s[2] or 'plain' for s in ast if s[0] == 'w']
         self.runs = lit_runs(ast)
+        self._spec = None
 
     def match(self, path):
         ep, err = core.with_timeout(lambda: self.router.resolve(path, ['GET']))
@@ -683,6 +693,19 @@ class Oracle:
             return None
         _, extra = self.router.radidict.get(path.strip('/'), allow_partial=True)
         return ep[1], list(extra['param_values'])
+
+    def expected(self, path):
+        """values of the rule-by-rule match derived from the rule text only (None: not decidable that way)"""
+        try:
+            if self._spec is None:
+                self._spec = G.rule_spec(self.rule)
+            pat, funcs, _ = self._spec
+            r = core.with_timeout(lambda: G.match_rule(pat, funcs, path.strip('/')))
+        except core.Hang:
+            raise
+        except Exception:
+            return None
+        return r if isinstance(r, list) else None
 
     def fmt(self, wi, v):
         f_out = self.route.filters_out[wi]
@@ -701,6 +724,13 @@ class Oracle:
             return None                     # not a single-rule match the property talks about
         anon, kw = split_args(names, vals)
         ctx = f'rule={self.rule!r} path={path!r} values={vals!r}'
+        # "each bound to the text its filter accepted": the values re-derived from the rule text alone (user regexes
+        # compiled here, built-in filters from their documentation; router_gen.rule_spec / match_rule)
+        exp = self.expected(path)
+        if exp is not None and not same_vals(vals, exp):
+            return ('C19:url:matched-values-are-not-the-accepted-texts',
+                    f'the values bound by the match are {vals!r}; the texts the wildcards accepted (converted by int / '
+                    f'float wildcards) are {exp!r}: {ctx}')
         texts = spans(self.ast, route.filters, path.strip('/'))
         try:
             url = route.url(*anon, **kw)
@@ -808,6 +838,77 @@ class Oracle:
         return ('C19:url:assertion-unexplained', f'url() raised AssertionError: {ctx}')
 
 
+# filters of different kinds with the same regex text, in one process: (rule A, path A, rule B, path B, values B
+# is expected to bind when it is a rex rule, which the reference matcher does not cover)
+KIND_PAIRS = [
+    ('/i/<x:int>', 'i/007', '/r/<x:re:-?\\d+>', 'r/007', None),
+    ('/i/<x:int>/t', 'i/-05/t', '/r/<:re:-?\\d+>/t', 'r/-05/t', None),
+    ('/f/<x:float>', 'f/1.50', '/g/<x:re:-?\\d+(\\.\\d+)?>', 'g/1.50', None),
+    ('/f/<x:float>-<y>', 'f/007-k', '/g/<x.re(-?\\d+(\\.\\d+)?)>-<y>', 'g/007-k', None),
+    ('/a/<x:re:(a)|(b)>z', 'a/bz', '/b/<x.rex((a)|(b))[2]>z', 'b/bz', ['b']),
+]
+
+
+def clear_filter_cache():
+    """forget the handlers built so far, so that the creation order inside a scenario is what decides
+    (works whatever the cache is keyed by; a tree without such a cache needs nothing)"""
+    from ombott.router.filter_factory import FilterFactory
+    c = getattr(FilterFactory, '_filter_cache', None)
+    if isinstance(c, dict):
+        c.clear()
+
+
+def kind_scenario(pair, order, mode):
+    """two rules whose filters share their regex text but not their kind, registered in `order` ('AB' | 'BA') on one
+    router or on two routers of this process ('one' | 'two'): each rule must convert and format by its own kind.
+    Returns [(key, what)]."""
+    from ombott.router.radirouter import RadiRouter
+    ra, pa, rb, pb, exp_b = pair
+    clear_filter_cache()
+    bad = []
+    try:
+        shared = RadiRouter()
+        routers, routes = {}, {}
+        for which in order:
+            rule = ra if which == 'A' else rb
+            R = shared if mode == 'one' else RadiRouter()
+            routers[which] = R
+            routes[which] = R.add(rule, 'GET', lambda **kw: None)
+        for which, rule, path, exp in (('A', ra, pa, None), ('B', rb, pb, exp_b)):
+            R, route = routers[which], routes[which]
+            ctx = f'rule={rule!r} path={path!r}; registered {"after" if order[0] != which else "before"} ' \
+                  f'{(rb if which == "A" else ra)!r} on {"the same router" if mode == "one" else "another router of the process"}'
+            if exp is None:
+                pat, funcs, _ = G.rule_spec(rule)
+                exp = G.match_rule(pat, funcs, path)
+            ep, err = R.resolve('/' + path, ['GET'])
+            if not ep or ep[0].route is not route:
+                bad.append(('C19:url:filter-kinds-mixed-up', f'the rule no longer matches its own path: {ctx}'))
+                continue
+            _, extra = R.radidict.get(path, allow_partial=True)
+            vals = list(extra['param_values'])
+            if not same_vals(vals, exp):
+                bad.append(('C19:url:filter-kinds-mixed-up',
+                            f'values {vals!r}, the rule\'s own filters give {exp!r}: {ctx}'))
+                continue
+            anon, kw = split_args(route.params, vals)
+            try:
+                u = route.url(*anon, **kw)
+            except Exception as e:
+                bad.append(('C19:url:filter-kinds-mixed-up', f'url() raised {type(e).__name__}: {e}: values={vals!r} {ctx}'))
+                continue
+            ep2, _ = R.resolve('/' + u.strip('/'), ['GET'])
+            vals2 = None
+            if ep2 and ep2[0].route is route:
+                vals2 = list(R.radidict.get(u.strip('/'), allow_partial=True)[1]['param_values'])
+            if not same_vals(vals, vals2):
+                bad.append(('C19:url:filter-kinds-mixed-up',
+                            f'url()={u!r} resolves to {vals2!r} instead of {vals!r}: {ctx}'))
+    finally:
+        clear_filter_cache()
+    return bad
+
+
 _style = []
 
 
@@ -864,7 +965,7 @@ class C19(Check):
             'plus direct url() calls with wrong / missing / ill-typed arguments; rules of built-in wildcards only, dense '
             'in the side-condition shapes (look-ahead literal re-created by a canonical int/float text, values from 1e16, '
             '16/17-digit numerals, newlines), with the hypotheses of url_rematch_builtin evaluated on both sides; random '
-            'texts / doubles through the live handlers and the live float formatter; non-trivial = the path matched a '
+            'texts / doubles through the live handlers and the live float formatter; user regexes with capturing groups (one group inside the match, two groups, a group spanning it, non-capturing) with the matched values re-derived from the rule text by an independent matcher; pairs of rules whose filters share their regex text but not their kind (int vs re(-?\\d+), float vs its mask as re, re vs rex) in both creation orders on one and on two routers with the filter cache cleared in between; non-trivial = the path matched a '
             'rule with a wildcard, or a filter / formatter probe')
     assumptions = ['re matching of user regular expressions (re / rex filters) is taken from the running interpreter (handler results shipped); Stable for re wildcards is a named hypothesis (AllStable of url_rematch)',
                    'the concrete int / float / path handlers and the concrete float formatter of Model/RouterBuiltinEnv.lean are the live ones: tied by the regenerated probe tables (C01: builtin_env_probes_agree; C19: builtin_float_fmt_agrees), by direct differential probes on random texts and doubles and by the round trips; within the model their stability is proved',
@@ -1030,6 +1131,18 @@ class C19(Check):
                     cases.append((s['rule'], ast_of_rule(s['rule']), [s['path']]))
                 except Exception:
                     pass
+        # filter identity across kinds: every pair x both creation orders x one router / two routers
+        for k, pair in enumerate(KIND_PAIRS):
+            for order in ('AB', 'BA'):
+                for mode in ('one', 'two'):
+                    evals += 1
+                    try:
+                        bad = core.with_timeout(lambda: kind_scenario(pair, order, mode))
+                    except core.Hang:
+                        bad = [('C19:url:hang', f'no answer within the watchdog: kinds scenario {pair[:4]!r}')]
+                    self._bump('search-kinds-' + ('ok' if not bad else 'bad'))
+                    for key, what in bad:
+                        findings.append(Finding(key, what, dict(scenario=dict(pair=k, order=order, mode=mode))))
         for rule, path in FIXED:
             cases.append((rule, ast_of_rule(rule), [path]))
         cases.append(('/<q:float>', ast_of_rule('/<q:float>'), ['1' + '0' * 309, '-' + '9' * 400 + '.5', '0.' + '0' * 400 + '1']))
@@ -1056,6 +1169,11 @@ class C19(Check):
 
     def replay(self, data):
         i = data.get('input') or {}
+        if 'scenario' in i:
+            sc = i['scenario']
+            pair = KIND_PAIRS[sc['pair']]
+            return dict(rules=[pair[0], pair[2]], paths=[pair[1], pair[3]], order=sc['order'], routers=sc['mode'],
+                        oracle=[dict(key=k, what=w) for k, w in kind_scenario(pair, sc['order'], sc['mode'])])
         if 'rule' not in i or 'path' not in i:
             # a proof replay, or a disagreement on a direct url() call: show what was recorded
             return {k: data.get(k) for k in ('kind', 'what', 'theorem', 'input', 'line', 'observed_impl', 'observed_model')
